@@ -49,9 +49,11 @@ def noextOf (tags : Tags) : Bool :=
   | some (_, vals) => vals.contains "noextpitch"
   | none => false
 
-def runTags (tags : Tags) : String :=
-  let (st, e) := readSong Arith.float (noextOf tags) tags
+def runTagsWith {α} (A : Arith α) (tags : Tags) : String :=
+  let (st, e) := readSong A (noextOf tags) tags
   showState st e
+
+def runTags (tags : Tags) : String := runTagsWith Arith.float tags
 
 /-! ### the MML glue for the restricted family of `insmml` (lines `@key values ; comment`,
 `#option …`, continuation lines starting with a blank, comment lines) -/
@@ -217,6 +219,8 @@ def pitchItemsOf (toks : List String) : Option (List PitchItem) :=
           -- lengths (a rate that does not fit an `int` is read modulo 2^32)
           if r = 0 ∨ r > 1000 ∨ b.dec + d.dec + 1 > 6 then none else
           let top := Dec.add (Dec.half d) b
+          -- like written nodes: pitches within +-127 semitones (the quantifier of the property)
+          if top.num.natAbs > 127 * 10 ^ top.dec ∨ b.num.natAbs > 127 * 10 ^ b.dec then none else
           some (acc ++ [.loop, .node b top (some r), .node top top.neg (some (2 * r)), .node top.neg b (some r)])
         | _, _, _ => none
       | _ => none
@@ -236,6 +240,10 @@ def pitchItemsOf (toks : List String) : Option (List PitchItem) :=
       | _, _ => none) []
 
 def judgeTags (tags : Tags) (impl : String) : String :=
+  -- the binary64 arithmetic written out in Lean (`Arith.b64`, the one `C11_psg_slide_binary64` is about) must give the
+  -- same state and the same exception as the hardware doubles (`Arith.float`, which the correspondence check compares
+  -- with the C++), on every request
+  if runTagsWith Arith.b64 tags != runTags tags then "fail b64: the model run with Arith.b64 differs from the run with Float" else
   match parseImpl impl with
   | none => "skip"
   | some im =>
@@ -307,8 +315,8 @@ def judgeTags (tags : Tags) (impl : String) : String :=
         else none
       | _, _ => none
     let differing := singles.filter fun (_, rest) =>
-      (match psgCompile Arith.float rest with | .ok b => some b | .error _ => none)
-        != (match psgCompile Arith.rat rest with | .ok b => some b | .error _ => none)
+      (match psgCompile Arith.float 0 rest with | .ok b => some b | .error _ => none)
+        != (match psgCompile Arith.rat 0 rest with | .ok b => some b | .error _ => none)
     let fq := if singles.isEmpty then "" else
       s!" fq={singles.length}/{differing.length}" ++ (match differing.head? with | some (n, _) => s!":{n}" | none => "")
     match verdicts.find? (·.startsWith "fail") with
